@@ -45,6 +45,16 @@ def stale_scenarios(rng, n):
         op2 = {'op': rng.choice(['map', 'imap'] if ordered else ['map_unordered', 'imap_unordered']), 'n': rng.randint(3, 10), 'chunk_size': rng.choice([1, 2]), 'elem': elem,
                'dur': {'kind': 'hash', 'salt': rng.randint(0, 99), 'unit': 0.02}}
         out.append({'seed': rng.randint(0, 10 ** 6), 'pool': pool, 'ops': [op1, op2], 'same_func': True, 'relax_shape': True})
+        if rng.random() < .3:
+            # a lazy call that is still OPEN (all of its tasks submitted, most of them queued) while another call — of either ordering
+            # mode — is attempted on the same pool: whatever happens to that attempt, the queued tasks of the open call are entered
+            # with their own arguments, once
+            n1 = rng.randint(5, 9)
+            opA = {'op': rng.choice(['imap_unordered', 'imap']), 'n': n1, 'chunk_size': 1, 'elem': rng.choice(['tuple', 'scalar']), 'consume': rng.randint(1, 2),
+                   'max_tasks_active': 2 * n1, 'dur': {'kind': 'hash', 'salt': rng.randint(0, 99), 'unit': 0.05}}
+            opB = {'op': rng.choice(['map', 'map_unordered', 'imap', 'imap_unordered']), 'n': rng.randint(2, 5), 'chunk_size': 1, 'elem': opA['elem']}
+            out.append({'seed': rng.randint(0, 10 ** 6), 'pool': {'n_jobs': rng.choice([1, 2, 3]), 'start_method': rng.choice(['fork', 'threading'])},
+                        'ops': [opA, opB, {'op': 'sleep', 'd': 1.0}], 'same_func': rng.random() < .5, 'relax_shape': True, 'overlap': True})
     return out
 
 
@@ -72,7 +82,7 @@ def run(chk):
     proto_correspondence(chk, 'protocol traces vs Mpire.Proto.step (failure)', fs, fobs)
     st = stale_scenarios(rng, 120 if chk.tier == 'quick' else 2000)
     run_scenarios(chk, 'a call after one that was cut short, same function: nothing of the earlier call is executed during it', st, {'C02', 'C01'},
-                  nontrivial=lambda sc, o: True, dist=lambda sc, o: {'first_call': 'closed early' if sc['ops'][0].get('abandon') else 'failed with a long sibling',
+                  nontrivial=lambda sc, o: True, dist=lambda sc, o: {'first_call': 'left open' if sc.get('overlap') else 'closed early' if sc['ops'][0].get('abandon') else 'failed with a long sibling',
                                                                      'start': sc['pool']['start_method']})
     chk.assumptions += ['a task interrupted mid-function counts as entered', 'DetSim scheduler granularity: primitive operations']
 
